@@ -19,7 +19,10 @@ Definition within_proved (c : C01.case) (orders : list (list nat)) : bool :=
   let n := c_n c in
   let ts := combine (combine (map (fun t => unit_utility (c_labels c) (c_owner c) (fst t) (snd t)) (combine (c_dist c) (c_ucols c)))
                              (c_nulls c)) orders in
-  let G := pw eps64 (3 * n + length ts + 1) - 1 in
+  (* gamma_k = k eps / (1 - k eps) >= (1 + eps)^k - 1 (C06_gamma, k eps < 1): the closed form of the proved factor, cheap to
+     evaluate (the exact power has 53 k-bit numerators) *)
+  let k := Z.of_nat (3 * n + length ts + 1) in
+  let G := (inject_Z k * eps64) / (1 - inject_Z k * eps64) in
   let exact := kernel_t n ts in let scale := akernel_t n ts in
   forallb (fun p => Qle_bool (Qabs (nth p (i_scores c) 0 - nth p exact 0)) (G * nth p scale 0)) (seq 0 n).
 
